@@ -23,7 +23,9 @@ EXPLANATION = (
     "type guards or guarded by such a handler — no exception can leave get because of an altered, truncated or half-written entry; (R4) a hit "
     "hands out a fresh dict and the stored dict is a fresh copy that alone receives the internal routing key; (R6) nodes that did not opt in never "
     "reach the backend, a hit never reaches the executor and a store happens only after the executor returned; (R7) on a hit the routing decision "
-    "is restored (and its internal key removed) before the state is written; (R8) the in-memory LRU only ever removes entries."
+    "is restored (and its internal key removed) before the state is written; (R8) the in-memory LRU only ever removes entries; (R9) emit "
+    "outputs — compared by identity against one module constant — are re-bound to that constant when an entry is served, because a "
+    "serialising backend returns a copy."
 )
 NOT_DECIDED = "Equality of cached and uncached runs as such; behaviour of the third-party diskcache store (assumed: stored bytes come back as bytes or as a non-bytes object; its own calls do not raise); that definition_hash distinguishes any two different functions."
 
@@ -89,6 +91,7 @@ def run(ctx) -> None:
     rep.rule("C09.R6", "opt-in respected; hit skips execution; store after success", floor=5)
     rep.rule("C09.R7", "routing decision restored before the state write on a hit", floor=2)
     rep.rule("C09.R8", "in-memory LRU only removes entries", floor=2)
+    rep.rule("C09.R9", "identity-compared emit sentinels are re-applied when an entry is served", floor=1)
 
     cc = db.func("runners._shared.caching.check_cache")
     # ---- R1 ---------------------------------------------------------------------
@@ -279,10 +282,19 @@ def run(ctx) -> None:
     rep.add("C09.R3", f"{st.qname}:two-writes", ok, st.loc(), "payload and digest are written under key and key+suffix (either half missing or stale fails verification on read)" if ok else "set() does not write payload and digest as two keyed entries")
 
     # ---- R4 ---------------------------------------------------------------------
-    hit = [n for n in walk_local(cc.node) if isinstance(n, ast.Return) and isinstance(n.value, ast.Tuple) and len(n.value.elts) == 2 and not (isinstance(n.value.elts[1], ast.Constant))]
-    ok = bool(hit) and all(isinstance(r.value.elts[1], ast.Call) and dotted(r.value.elts[1].func) in ("dict", "copy.copy", "copy.deepcopy") for r in hit)
-    rep.add("C09.R4", f"{cc.qname}:fresh-on-hit", ok, cc.loc(), "a hit hands out a fresh dict (the restore step pops from it; the backend's object is untouched)" if ok else "a hit hands out the backend's own dict: popping the internal routing key / applying it to state corrupts the stored entry")
     sic = db.func("runners._shared.caching.store_in_cache")
+    hit = [n for n in walk_local(cc.node) if isinstance(n, ast.Return) and isinstance(n.value, ast.Tuple) and len(n.value.elts) == 2 and not (isinstance(n.value.elts[1], ast.Constant))]
+
+    def _fresh_copy(e: ast.AST) -> bool:
+        if isinstance(e, ast.Call) and dotted(e.func) in ("dict", "copy.copy", "copy.deepcopy"):
+            return True
+        if isinstance(e, ast.Name):
+            ds = [d for d in db.local_defs(cc).get(e.id, []) if isinstance(d, (ast.Assign, ast.AnnAssign))]
+            return bool(ds) and all(_fresh_copy(d.value) for d in ds)
+        return False
+
+    ok = bool(hit) and all(_fresh_copy(r.value.elts[1]) for r in hit)
+    rep.add("C09.R4", f"{cc.qname}:fresh-on-hit", ok, cc.loc(), "a hit hands out a fresh dict (the restore step pops from it; the backend's object is untouched)" if ok else "a hit hands out the backend's own dict: popping the internal routing key / applying it to state corrupts the stored entry")
     tc = [n for n in walk_local(sic.node) if isinstance(n, ast.Assign) and isinstance(n.value, ast.Call) and dotted(n.value.func) == "dict" and n.value.args and src(n.value.args[0]) == "outputs"]
     ok = len(tc) == 1
     if ok:
@@ -296,6 +308,16 @@ def run(ctx) -> None:
     ok = any(isinstance(c.func, ast.Attribute) and c.func.attr == "pop" and c.args and "_ROUTING_DECISION_KEY" in src(c.args[0]) and src(c.func.value) == "outputs" for c in db.calls_in(rrd))
     gate_guard = any(isinstance(n, ast.If) and "isinstance" in src(n.test) and any(isinstance(s, ast.Return) for s in n.body) for n in walk_local(rrd.node))
     rep.add("C09.R4", f"{rrd.qname}:pops-internal-key", ok and gate_guard, rrd.loc(), "restore pops the internal key from the outputs of gate nodes" if ok and gate_guard else "restore does not pop the internal routing key from the cached outputs")
+
+    # ---- R9: identity-compared sentinels must not come back from a serialising backend ----
+    sent_restored = False
+    for n in walk_local(cc.node):
+        if isinstance(n, ast.Assign) and isinstance(n.value, ast.Name) and n.value.id == "_EMIT_SENTINEL" and any(isinstance(t, ast.Subscript) for t in n.targets):
+            lp = enclosing(n, (ast.For,))
+            if lp is not None and "outputs" in src(lp.iter) and "data_outputs" in src(lp.iter):
+                sent_restored = True
+    stored_filtered = any(isinstance(n, (ast.DictComp,)) and any("_EMIT_SENTINEL" in src(i) and "is not" in src(i) for g in n.generators for i in g.ifs) for n in walk_local(sic.node))
+    rep.add("C09.R9", f"{cc.qname}:emit-sentinel-identity", sent_restored or stored_filtered, cc.loc(), "emit outputs of a served entry are re-bound to the module sentinel (a serialising backend returns a copy, and the sentinel is compared by identity everywhere)" if sent_restored or stored_filtered else "a cached entry's emit outputs come back from the backend as they were stored: with a serialising backend the copy of the sentinel is no longer identical to it, leaks into the run's values and no longer advances the signal's version")
 
     # ---- R6 / R7 -----------------------------------------------------------------
     ccfg = ctx.cfg(cc)
@@ -379,11 +401,12 @@ VARIANTS = [
     Variant("loads-unguarded", CH, replace_once("        try:\n            value = pickle.loads(raw_bytes)  # noqa: S301\n        except Exception:\n            logger.warning(\"Cache deserialization failed for key %s — evicting\", key)\n            self._cache.delete(key)\n            self._cache.delete(key + self._HMAC_SUFFIX)\n            return False, None\n", "        value = pickle.loads(raw_bytes)  # noqa: S301\n"), {"C09.R3"}),
     Variant("digest-no-ascii-guard", CH, replace_once("        if not isinstance(stored_hmac, str) or not stored_hmac.isascii():", "        if not isinstance(stored_hmac, str):"), {"C09.R3"}),
     Variant("legacy-entry-returned", CH, replace_once("            logger.warning(\"Cache entry is not raw bytes for key %s — evicting\", key)\n            self._cache.delete(key)\n            return False, None", "            return True, raw_bytes"), {"C09.R3"}),
-    Variant("hit-returns-backend-dict", CA, replace_once("    return cache_key, dict(cached_value)", "    return cache_key, cached_value"), {"C09.R4"}),
+    Variant("hit-returns-backend-dict", CA, replace_once("    restored = dict(cached_value)\n", "    restored = cached_value\n"), {"C09.R4"}),
     Variant("store-mutates-live-outputs", CA, replace_once("    to_cache = dict(outputs)\n", "    to_cache = outputs\n"), {"C09.R4"}),
     Variant("lookup-without-opt-in", CA, replace_once("    if not getattr(node, \"cache\", False):\n        return \"\", None\n", ""), {"C09.R6"}),
     Variant("store-in-error-handler", SS, replace_once("                # Wrap only Exception subclasses\n                if isinstance(e, Exception):", "                if cache is not None and cache_key:\n                    store_in_cache(node, {}, new_state, cache, cache_key)\n                # Wrap only Exception subclasses\n                if isinstance(e, Exception):"), {"C09.R6"}),
     Variant("async-hit-without-restore", AS, replace_once("            outputs = cached_outputs\n            restore_routing_decision(node, outputs, new_state)\n            # Emit NodeStartEvent -> CacheHitEvent -> RouteDecision?", "            outputs = cached_outputs\n            # Emit NodeStartEvent -> CacheHitEvent -> RouteDecision?"), {"C09.R7"}),
+    Variant("hit-keeps-unpickled-sentinel", CA, replace_once("    for name in node.outputs[len(node.data_outputs) :]:\n        restored[name] = _EMIT_SENTINEL\n", ""), {"C09.R9"}),
     Variant("lru-evicts-newest", CH, replace_once("            self._data.popitem(last=False)", "            self._data.popitem(last=True)"), {"C09.R8"}),
     Variant("twin-verify-positive-form", CH, replace_once("        if not hmac.compare_digest(stored_hmac, expected_hmac):\n            logger.warning(\n                \"Cache HMAC mismatch for key %s — possible tampering, evicting\",\n                key,\n            )\n            self._cache.delete(key)\n            self._cache.delete(key + self._HMAC_SUFFIX)\n            return False, None\n", "        verified = hmac.compare_digest(stored_hmac, expected_hmac)\n        if not verified:\n            self._cache.delete(key)\n            self._cache.delete(key + self._HMAC_SUFFIX)\n            return False, None\n"), set()),
 ]
